@@ -11,6 +11,7 @@ package dastard
 import (
 	"fmt"
 	"sync"
+	"time"
 )
 
 var verifC17Once sync.Once
@@ -128,4 +129,13 @@ func (c *VerifC17Control) VerifC17Sync() (int, error) {
 		c.SC.queuedResults <- nil
 	})
 	return n, err
+}
+
+// VerifC17Stall is a slow control request: a closure that keeps the core loop busy for d (like any
+// request that goes through runLaterIfActive) before it replies.
+func (c *VerifC17Control) VerifC17Stall(d time.Duration) error {
+	return c.SC.runLaterIfActive(func() {
+		time.Sleep(d)
+		c.SC.queuedResults <- nil
+	})
 }
